@@ -256,6 +256,22 @@ pub fn gen_len_sweep(out: &mut impl Write, r: &mut Rng, thorough: bool) {
                 if be == Be::V1 && si > 0 && l % 4 != 0 { continue; }      // RSA signing is slow: thinner sweep of footer lengths
                 let msg = r.pattern(ml); let f = r.bytes(fl); let a = r.bytes(al);
                 let nonce = r.bytes(nl);
+                if si == 0 && l % 25 == 1 {
+                    // non-canonical base64: every other final character of the payload (and of a footer) — a token text that is
+                    // not the canonical encoding of its bytes is rejected before anything is decoded or validated
+                    if let Some(tok) = seal_local(be, &key, &nonce, &msg, &[7u8, 7], &a) {
+                        let (head, foot) = tok.rsplit_once('.').unwrap();
+                        for (part, rebuild) in [(head.to_string(), 0), (foot.to_string(), 1)] {
+                            let last = part.chars().last().unwrap();
+                            for c in "ABCDEFGHIJKLMNOPQRSTUVWXYZabcdefghijklmnopqrstuvwxyz0123456789-_".chars() {
+                                if c == last { continue; }
+                                let mut p2 = part.clone(); p2.pop(); p2.push(c);
+                                let t2 = if rebuild == 0 { format!("{p2}.{foot}") } else { format!("{head}.{p2}") };
+                                emit_open(out, be, &key, &t2, &a, "err");
+                            }
+                        }
+                    }
+                }
                 if si == 0 && l % 10 == 3 {
                     // the payload-type suffix is part of the authenticated header: the same body under the other header is a forgery
                     let v = be.version();
